@@ -12,6 +12,9 @@ import (
 // calleeName gives the lookup keys for a callee: full name and, for functions of
 // the repository, (dir, relative name).
 func (v *Verifier) funcKey(fn *ssa.Function) string {
+	if fn == nil {
+		return "lemma"
+	}
 	if fn.Pkg == nil {
 		if fn.Parent() != nil {
 			return v.funcKey(fn.Parent()) + "$" + strings.TrimPrefix(fn.Name(), fn.Parent().Name()+"$")
@@ -165,6 +168,11 @@ func (x *Exec) noteUnmodelled(s string) {
 
 func (x *Exec) callFunction(f *ssa.Function, binds []Val, args []Val, call *ssa.CallCommon, setRes func(Val), p token.Pos) {
 	sig := f.Signature
+	if f.Name() == "init" && f.Signature.Recv() == nil && f.Signature.Params().Len() == 0 && x.parent != nil && x.fn != nil && x.fn.Name() == "init" {
+		// initialisers of imported packages: their effects are on their own variables
+		setRes(Val{KnownLen: -1})
+		return
+	}
 	if c := x.V.contractFor(f); c != nil && !c.Inline {
 		var names []string
 		var tys []types.Type
@@ -256,8 +264,12 @@ func (x *Exec) inline(f *ssa.Function, binds []Val, args []Val, p token.Pos) Val
 	ch.runBlocks(rpo(f, nil, f.Blocks[0]), nil)
 	// obligations raised in the inlined body belong to the caller
 	for _, o := range ch.obligs {
-		o.Name = x.V.funcKey(x.root().fn) + "#" + strings.SplitN(o.Name, "#", 2)[1] + "@" + f.Name()
-		o.Func = x.V.funcKey(x.root().fn)
+		rootName := x.V.funcKey(x.root().fn)
+		if x.root().fn == nil {
+			rootName = x.root().lemmaName
+		}
+		o.Name = rootName + "#" + strings.SplitN(o.Name, "#", 2)[1] + "@" + f.Name()
+		o.Func = rootName
 		o.ex = x.root()
 		x.obligs = append(x.obligs, o)
 	}
@@ -524,24 +536,33 @@ func (x *Exec) builtinSpec(f *ssa.Function, args []Val, call *ssa.CallCommon, p 
 	name := f.String()
 	switch name {
 	case "bytes.Join", "strings.Join":
-		elem := call.Args[0].Type().Underlying().(*types.Slice).Elem()
+		elem := f.Signature.Params().At(0).Type().Underlying().(*types.Slice).Elem()
 		if l, ok := x.strList(args[0], elem); ok {
-			x.needDecl("bjoin", "(declare-fun bjoin (SL Str) Str)")
-			x.V.noteAssumed(name + " = bjoin(list, sep) [built-in model]")
+			x.V.noteAssumed(name + " = bjoin(list, sep) [built-in model of the standard library]")
 			return tv("(bjoin " + l + " " + x.termOf(args[1]) + ")"), true
 		}
-	case "bytes.Split", "strings.Split":
-		x.needDecl("bsplit", "(declare-fun bsplit (Str Str) SL)")
-		x.needDecl("sllen", "(declare-fun sllen (SL) Int)")
-		x.needDecl("slnth", "(declare-fun slnth (SL Int) Str)")
-		x.V.noteAssumed(name + " = bsplit(s, sep) [built-in model]")
+	case "bytes.Split", "strings.Split", "bytes.SplitN", "strings.SplitN":
+		x.V.noteAssumed(name + " = bsplit(s, sep) [built-in model of the standard library]")
 		r := x.newRef()
-		lst := x.smt.define("split", "SL", "(bsplit "+x.termOf(args[0])+" "+x.termOf(args[1])+")")
+		var lst Term
+		if strings.HasSuffix(name, "SplitN") {
+			lst = x.smt.define("split", "SL", "(bsplitn "+x.termOf(args[0])+" "+x.termOf(args[1])+" "+x.termOf(args[2])+")")
+		} else {
+			lst = x.smt.define("split", "SL", "(bsplit "+x.termOf(args[0])+" "+x.termOf(args[1])+")")
+		}
 		sv, svs := "SH.Str", "(Array Int (Array Int Str))"
 		na := x.smt.fresh("splitarr", "(Array Int Str)")
+		// the first eight components are given explicitly (no quantifier needed for key parsers)
+		var eqs []Term
+		for k := 0; k < 8; k++ {
+			eqs = append(eqs, fmt.Sprintf("(= (select %s %d) (slnth %s %d))", na, k, lst, k))
+		}
+		x.smt.assume(implies(x.reach, and(eqs...)))
 		x.smt.assume(implies(x.reach, fmt.Sprintf("(forall ((i Int)) (! (= (select %s i) (slnth %s i)) :pattern ((select %s i))))", na, lst, na)))
 		x.setSV(sv, svs, "(store "+x.getSV(sv, svs)+" "+r+" "+na+")")
 		return tv("(mk-slice " + r + " 0 (sllen " + lst + "))"), true
+	case "bytes.HasPrefix", "strings.HasPrefix":
+		return tv("(hasprefix " + x.termOf(args[0]) + " " + x.termOf(args[1]) + ")"), true
 	}
 	return Val{}, false
 }
